@@ -196,3 +196,43 @@ def extend(g, api):
             return 'true'
         raise TE(f'Recv::stop: read_credits expression not recognised: {e}')
     g.term('stopCreditsOnlyReceiving', 'Bool', f'{RECV}::Recv::stop read_credits', stop_credits_guarded)
+
+    # ---- SendStream::write_source: is a stop by the peer reported before the connection-level limit test
+    def write_stopped_first():
+        b = body(MOD, 'write_source')
+        lim = [m.start() for m in re.finditer(r'if\s+limit\s*==\s*0\s*\{', b)]
+        if len(lim) != 1:
+            raise TE('write_source: expected exactly one `if limit == 0 {`')
+        n = len(re.findall(r'stop_reason', b))
+        if n == 0:
+            return 'false'
+        m = [x for x in re.finditer(
+            r'if\s+let\s*\(\s*true\s*,\s*Some\(\s*error_code\s*\)\s*\)\s*=\s*'
+            r'\(\s*stream\.is_writable\(\)\s*,\s*stream\.stop_reason\s*\)\s*\{\s*'
+            r'return\s+Err\(\s*WriteError::Stopped\(\s*error_code\s*\)\s*\)\s*;\s*\}', b)]
+        if n == 1 and len(m) == 1 and m[0].end() <= lim[0] and \
+           re.search(r'\.ok_or\(WriteError::ClosedStream\)\?\s*;\s*$', b[:m[0].start()]):
+            return 'true'
+        raise TE('write_source: stop_reason test not recognised')
+    g.term('writeStoppedFirst', 'Bool', f'{MOD}::SendStream::write_source stop test', write_stopped_first)
+
+    # ---- received_max_stream_data: is a peer-initiated id checked against the advertised stream limit
+    def maxsd_checks_limit():
+        b = body(STATE, 'received_max_stream_data')
+        if len(re.findall(r'let\s+write_limit\s*=\s*self\.write_limit\(\)\s*;', b)) != 1:
+            raise TE('received_max_stream_data: expected one `let write_limit = self.write_limit();`')
+        head = b[:b.index('let write_limit')]
+        if not re.search(r'if\s+id\.initiator\(\)\s*!=\s*self\.side\s*&&\s*id\.dir\(\)\s*==\s*Dir::Uni\s*\{', head):
+            raise TE('received_max_stream_data: recv-only test changed')
+        n = len(re.findall(r'max_remote', b))
+        if n == 0 and len(re.findall(r'\bif\b', head)) == 1:
+            return 'false'
+        m = re.findall(
+            r'if\s+id\.initiator\(\)\s*!=\s*self\.side\s*&&\s*id\.index\(\)\s*>=\s*'
+            r'self\.max_remote\[\s*id\.dir\(\)\s+as\s+usize\s*\]\s*\{(?:(?!\bif\b|\blet\b|\bself\b).)*?'
+            r'return\s+Err\(\s*TransportError::STREAM_LIMIT_ERROR\(\s*""\s*\)\s*\)\s*;\s*\}', head, flags=re.S)
+        if n == 1 and len(m) == 1 and len(re.findall(r'\bif\b', head)) == 2 and \
+           head.index('Dir::Uni') < head.index('max_remote'):
+            return 'true'
+        raise TE('received_max_stream_data: stream-limit test not recognised')
+    g.term('maxsdChecksRemoteLimit', 'Bool', f'{STATE}::received_max_stream_data stream limit test', maxsd_checks_limit)
